@@ -1,11 +1,14 @@
 import Driver.Common
 import O4.Model.C10Bounds
+import O4.Model.C10Deadline
 import O4.Model.Obfs4Conn
 import O4.Model.Handshake
 /-! driver module `c10`:
   `bound <name>` → value of the buffer bound of `O4.C10.table` (or `bad-op`)
   `parsepkt <isServer 0|1> <pkthex>` → what `readPackets` does with one authenticated frame
       plaintext: `payload <hex>` | `seed <hex>` | `ignored` | `bad pktlen <n>` | `bad paylen <n>`
+  `dd <kind plain|socks|obfs4srv> <ok 0|1> <ops>` → verdict `1|0` of the deadline discipline on a
+      trace of conn operations (a c r x R W, `-` = empty)
   `fmm <markhex> <bufhex> <startPos> <maxPos> <fromTail 0|1>` → `findMarkMac`: position or `-1` -/
 namespace Driver.C10
 open O4
@@ -39,6 +42,13 @@ def step (_ : Unit) : List String → Unit × String
       | some p => ((), toString p)
       | none => ((), "-1")
     | _, _, _, _, _ => ((), "bad-op")
+  | ["dd", kind, ok, ops] =>
+    match parseBool ok, O4.C10.parseOps (if ops = "-" then "" else ops) with
+    | some o, some l =>
+      match O4.C10.verdict kind l o with
+      | some v => ((), boolStr v)
+      | none => ((), "bad-op")
+    | _, _ => ((), "bad-op")
   | _ => ((), "bad-op")
 
 def run : IO Unit := lineLoop step ()
